@@ -122,6 +122,9 @@ fn drive(inp: &str, outp: &str) {
             }
         };
         writeln!(w, "{}", ev).unwrap();
+        // one event per line on disk before the next op starts: if the code under test aborts the process
+        // (a non-unwinding panic, a signal), everything up to the fatal op has been recorded
+        w.flush().unwrap();
     }
     ex.reset();
     w.flush().unwrap();
